@@ -17,10 +17,11 @@ pub mod c15;
 pub mod c16;
 pub mod c17;
 pub mod c18;
+pub mod c19;
 pub mod c20;
 pub mod hostile;
 
-pub const ALL: &[&str] = &["C01", "C02", "C03", "C04", "C05", "C06", "C07", "C08", "C09", "C10", "C11", "C12", "C13", "C14", "C15", "C16", "C17", "C18", "C20"];
+pub const ALL: &[&str] = &["C01", "C02", "C03", "C04", "C05", "C06", "C07", "C08", "C09", "C10", "C11", "C12", "C13", "C14", "C15", "C16", "C17", "C18", "C19", "C20"];
 
 pub fn make(id: &str) -> Option<Box<dyn Check>> {
     match id {
@@ -42,6 +43,7 @@ pub fn make(id: &str) -> Option<Box<dyn Check>> {
         "C16" => Some(Box::new(c16::C16)),
         "C17" => Some(Box::new(c17::C17::new())),
         "C18" => Some(Box::new(c18::C18::new())),
+        "C19" => Some(Box::new(c19::C19)),
         "C20" => Some(Box::new(c20::C20)),
         _ => None,
     }
